@@ -122,7 +122,7 @@ class FieldMappingDetectionItem(Contract):
     that differ only in the field (values, value linking, negation, modifiers kept); an unmapped / non-matching field is left alone"""
     id = "C12.FieldMappingTransformationBase.apply_detection_item"
     target = f"{BASE}:FieldMappingTransformationBase.apply_detection_item"
-    props = ("C12",)
+    props = ("C12", "C13")
     cases = ("one", "many", "unmapped", "no_match")
     assumed = ["apply_field_name / match_field_name abstract; values without field references; keyword-to-field wildcard case covered by the bounded stand-in"]
 
@@ -131,6 +131,7 @@ class FieldMappingDetectionItem(Contract):
         it = mk_item(I, "x")
         it.fields["value_linking"] = ClassRef(idx.lookup("sigma.conditions:ConditionAND"))
         it.fields["negated"] = True
+        it.fields["applied_processing_items"] = {"earlier"}
         I.E.opaque_isinstance["SigmaType"] = lambda I2, v, cinfo: cinfo.name == "SigmaType"       # plain values: Sigma types, but no field references
         targets = {"one": "g", "many": ["g", "h"], "unmapped": None, "no_match": "g"}[case]
         pi = SObj("ProcessingItem", {"match_field_name": NativeFn("m", lambda I2, a, k: case != "no_match"), "match_field_in_value": NativeFn("m", lambda I2, a, k: False), "identifier": "id"})
@@ -156,6 +157,8 @@ class FieldMappingDetectionItem(Contract):
                 same = isinstance(cp, SObj) and cp.fields.get("field") == fld and cp.fields.get("negated") is True and isinstance(cp.fields.get("value_linking"), ClassRef) and cp.fields["value_linking"].info.name == "ConditionAND" \
                     and len(cp.fields.get("value", [])) == 2 and all(a is b for a, b in zip(cp.fields["value"], inp["vals"]))
                 c.require(same, f"the copy for {fld} differs from the original only in its field: values, value linking (all) and negation are kept")
+            sets = [ops.getattr_(I, cp, "applied_processing_items", None) for cp in r.fields["detection_items"]] + [it.fields["applied_processing_items"]]
+            c.require(all(a is not b for i, a in enumerate(sets) for b in sets[i + 1:]), "the copies do not share their record of applied processing items with each other or with the original (C13: what a later item marks on one copy is not recorded for its siblings)", kind="FRAME")
 
     def frame_ok(self, I, inp, obj, name):
         return obj is inp["it"] and name in ("field", "value")
